@@ -63,6 +63,12 @@ type LeafSpec struct {
 	Style  int           `json:"style,omitempty"`
 	N      int           `json:"n"`                // retry budget (>=1)
 	WaitMs int           `json:"wait_ms,omitempty"` // retry wait (virtual time)
+	// WaitUs > 0 overrides WaitMs with a sub-millisecond wait (microseconds).
+	WaitUs int `json:"wait_us,omitempty"`
+	// TwinOf (KPlain only, pointer to an earlier KPlain leaf j): this leaf's node object is a
+	// struct whose FIRST FIELD is leaf j's node object, so both nodes live at the same address
+	// and differ only in their dynamic type - they are still two different nodes.
+	TwinOf *int `json:"twin_of,omitempty"`
 	// ErrRes: Result-style functions report a failure as (flyt.NewErrorResult(err), err)
 	// instead of (flyt.Result{}, err) - both are legitimate ways to return a Go error.
 	ErrRes bool `json:"err_res,omitempty"`
@@ -104,6 +110,8 @@ type WF struct {
 	Root   int         `json:"root"`
 	Fuel   int         `json:"fuel"`           // leaf visits before every post answers "halt"
 	Runs   int         `json:"runs,omitempty"` // sequential runs of the same objects (default 1)
+	// DeadlineMs > 0: every run gets a context with a deadline that many virtual ms after it starts.
+	DeadlineMs int `json:"deadline_ms,omitempty"`
 	Inject []Injection `json:"inject,omitempty"`
 	// BehOf maps a leaf node index to the index of the leaf whose behaviour (scripts and
 	// visit counter) it shares; nil = identity. Used by C10's flattening, where several
@@ -195,7 +203,7 @@ type Pair struct {
 	B int
 }
 
-const numPayKinds = 11
+const numPayKinds = 13
 
 func mkPayload(kind int, tag string) any {
 	switch kind % numPayKinds {
@@ -219,8 +227,12 @@ func mkPayload(kind int, tag string) any {
 		return (*Tok)(nil) // typed nils must keep their dynamic type
 	case 9:
 		return map[string]any(nil)
-	default:
+	case 10:
 		return []string(nil)
+	case 11:
+		return errors.New("payload that happens to be an error value: " + tag) // a value, not a failure
+	default:
+		return ValErr{Tag: "value:" + tag}
 	}
 }
 
@@ -271,6 +283,16 @@ func sameErr(a, b error) bool {
 	return reflect.DeepEqual(a, b)
 }
 
+// TempErr looks like a net.Error: retry policies keyed on Temporary() must not change the budget.
+type TempErr struct {
+	Tag  string
+	Temp bool
+}
+
+func (e *TempErr) Error() string   { return "temperr:" + e.Tag }
+func (e *TempErr) Temporary() bool { return e.Temp }
+func (e *TempErr) Timeout() bool   { return !e.Temp }
+
 type ValErr struct{ Tag string }
 
 func (e ValErr) Error() string { return "valerr:" + e.Tag }
@@ -290,6 +312,10 @@ func mkErr(flavor int, tag string) error {
 		return fmt.Errorf("attempt aborted [%s]: %w", tag, context.Canceled)
 	case 9:
 		return SliceErr{"field", tag}
+	case 10:
+		return &TempErr{Tag: tag, Temp: false} // net.Error-like: exposes Temporary()/Timeout()
+	case 11:
+		return &TempErr{Tag: tag, Temp: true}
 	default:
 		return errors.New("sentinel:" + tag)
 	}
@@ -395,22 +421,39 @@ type wfExec struct {
 func newWfExec(sc *WF) *wfExec {
 	x := &wfExec{sc: sc, visits: make([]int, len(sc.Nodes)), attempt: make([]int, len(sc.Nodes)), fuel: sc.Fuel, t0: time.Now()}
 	x.nodes = make([]flyt.Node, len(sc.Nodes))
+	// pass 1: node objects (a flow's start always has a smaller index, so it exists already)
 	for i, ns := range sc.Nodes {
 		if ns.Leaf != nil {
-			x.nodes[i] = x.buildLeaf(sc.beh(i), ns.Leaf)
-		} else {
-			f := flyt.NewFlow(x.nodes[ns.Flow.Start])
-			for _, c := range ns.Flow.Conns {
-				var to flyt.Node
-				if c.To >= 0 {
-					to = x.nodes[c.To]
-				}
-				f.Connect(x.nodes[c.From], flyt.Action(c.Action), to)
+			if t := ns.Leaf.TwinOf; t != nil && *t >= 0 && *t < i && ns.Leaf.Kind == KPlain && sc.Nodes[*t].Leaf != nil && sc.Nodes[*t].Leaf.Kind == KPlain && sc.Nodes[*t].Leaf.TwinOf == nil {
+				o := &twinOuter{in: plainLeaf{x, sc.beh(*t)}, x: x, id: sc.beh(i)}
+				x.nodes[*t] = &o.in
+				x.nodes[i] = o
+				continue
 			}
+			x.nodes[i] = x.buildLeaf(sc.beh(i), ns.Leaf)
+		}
+	}
+	for i, ns := range sc.Nodes {
+		if ns.Flow != nil {
+			f := flyt.NewFlow(x.nodes[ns.Flow.Start])
 			if ns.Flow.N > 1 {
 				f.BaseNode = flyt.NewBaseNode(flyt.WithMaxRetries(ns.Flow.N), flyt.WithWait(time.Duration(ns.Flow.WaitMs)*time.Millisecond))
 			}
 			x.nodes[i] = f
+		}
+	}
+	// pass 2: connections (targets may be any node, including the flow itself or a later flow)
+	for i, ns := range sc.Nodes {
+		if ns.Flow == nil {
+			continue
+		}
+		f := x.nodes[i].(*flyt.Flow)
+		for _, c := range ns.Flow.Conns {
+			var to flyt.Node
+			if c.To >= 0 {
+				to = x.nodes[c.To]
+			}
+			f.Connect(x.nodes[c.From], flyt.Action(c.Action), to)
 		}
 	}
 	return x
@@ -628,12 +671,36 @@ func (n *plainRetryFbLeaf) ExecFallback(p any, err error) (any, error) {
 	return n.x.fb(n.id, p, err)
 }
 
+// twinOuter's first field is another node (see LeafSpec.TwinOf).
+type twinOuter struct {
+	in plainLeaf
+	x  *wfExec
+	id int
+}
+
+func (n *twinOuter) Prep(ctx context.Context, s *flyt.SharedStore) (any, error) {
+	return n.x.prep(ctx, n.id, s)
+}
+func (n *twinOuter) Exec(ctx context.Context, p any) (any, error) {
+	return n.x.exec(ctx, n.id, p, false)
+}
+func (n *twinOuter) Post(ctx context.Context, s *flyt.SharedStore, p, e any) (flyt.Action, error) {
+	return n.x.post(ctx, n.id, s, p, e, false)
+}
+
+func (l *LeafSpec) wait() time.Duration {
+	if l.WaitUs > 0 {
+		return time.Duration(l.WaitUs) * time.Microsecond
+	}
+	return time.Duration(l.WaitMs) * time.Millisecond
+}
+
 func (x *wfExec) buildLeaf(id int, l *LeafSpec) flyt.Node {
 	n := l.N
 	if n < 1 {
 		n = 1
 	}
-	w := time.Duration(l.WaitMs) * time.Millisecond
+	w := l.wait()
 	switch l.Kind {
 	case KBase:
 		return &baseLeaf{BaseNode: flyt.NewBaseNode(flyt.WithMaxRetries(n), flyt.WithWait(w)), x: x, id: id}
@@ -805,6 +872,7 @@ type wfModel struct {
 	visits []int
 	fuel   int
 	out    *modelRun
+	onPost func() // called when the model enters a post (mirrors the executor's hook)
 }
 
 func newWfModel(sc *WF) *wfModel { return &wfModel{sc: sc, visits: make([]int, len(sc.Nodes))} }
@@ -910,6 +978,9 @@ func (m *wfModel) leaf(i int, l *LeafSpec) (string, bool) {
 	}
 	k = m.emit(MEv{i, v, "post", 0})
 	m.out.Path = append(m.out.Path, i)
+	if m.onPost != nil {
+		m.onPost()
+	}
 	if m.sc.outcome(i, v, "post", 0).Err != 0 {
 		m.out.EndEv = k
 		return "", false
